@@ -83,7 +83,20 @@ def gen_spec(rnd, boundary=None):
                           rnd.choice([9, 15, 768, 0])])
         if rnd.random() < .5:
             steps.append(['adv', rnd.choice([0, .05, .3])])
-    return {'kill_latency': rnd.choice([0.0, 0.0, 0.0005, 0.002]), 'watchers': ws, 'steps': steps}
+    spec = {'kill_latency': rnd.choice([0.0, 0.0, 0.0005, 0.002]), 'watchers': ws, 'steps': steps}
+    # transient spawn faults: the n-th process creation fails (with max_retry 1 the spawn is given up), or the
+    # before_spawn hook refuses / fails once
+    f = rnd.random()
+    if f < .08:
+        w['max_retry'] = 1
+        a = rnd.randint(n + 1, n + 8)
+        spec['spawn_fail'] = [a]
+    elif f < .13:
+        a = rnd.randint(n + 1, n + 8)
+        spec['spawn_fail'] = list(range(a, a + 5))          # max_retry (5) consecutive failures
+    elif f < .22:
+        w['hooks'] = {'before_spawn': ['%s@%d' % (rnd.choice(['false', 'raise']), rnd.randint(n + 1, n + 6)), False]}
+    return spec
 
 
 def plan(tier, seed):
@@ -215,6 +228,7 @@ def _history(w, h, res, dry, out):
             pre = set(p.pid for p in k.procs.values() if p.tag == tag and p.spawn_no and p.state != 'gone')
             wobj = w.arb.get_watcher(name)
             fresh['_pending'] = (name, pre, st, wobj.status(), bool(getattr(wobj, 'send_hup', False)))
+            fresh['_t'] = round(w.now(), 6)
 
     def after(i, st):
         if '_pending' in fresh:
@@ -226,7 +240,7 @@ def _history(w, h, res, dry, out):
                 label = 'restart' if st_[1] == 'restart' else (
                     'reload-terminate' if st_[2].get('graceful') is False else
                     ('reload-sequential' if st_[2].get('sequential') else 'reload-graceful'))
-                fresh[name] = (mid, pre, label, st_[2].get('waiting', False))
+                fresh[name] = (mid, pre, label, st_[2].get('waiting', False), fresh.get('_t', 0.0))
 
     steps = [s for s in h['steps']]
     real_steps = [s for s in steps if s[0] != 'mark']
@@ -271,6 +285,11 @@ def _history(w, h, res, dry, out):
             if w.stalled is not None or t2 is None:
                 res.obs['histories_stalled(C05 owns)'] += 1
                 return
+        if need is None and simhist.reported_status(w, name) != 'active':
+            # a spawn that could not be made (all retries failed, or before_spawn refused) stops the watcher, as
+            # documented for spawn_process; the statement is about active watchers
+            res.obs['watcher_stopped_itself_after_a_failed_spawn(not judged)'] += 1
+            continue
         judged += 1
         res.hist['checks_to_converge'][str(need)] += 1
         target = simhist.reported_numprocesses(w, name)
@@ -282,9 +301,20 @@ def _history(w, h, res, dry, out):
         if target < 0 or (conf.get('singleton') and target > 1):
             res.violation('C01/range', 'numprocesses=%s out of range (singleton=%s)' % (target, conf.get('singleton')))
         if name in fresh:
-            mid, pre, label, waiting = fresh[name]
+            mid, pre, label, waiting, t_req = fresh[name]
             rep = w.reply(mid)
-            if rep is not None and rep.get('status') == 'ok':
+            # "completed": a waiting request is answered ok when the operation is over; for a non-waiting one the
+            # ok only means accepted, completion shows on the event channel (reload event, or stop then start)
+            evs = [(t, topic.split('.')[-1]) for t, topic, msg in w.events()
+                   if topic.startswith('watcher.%s.' % w.arb.get_watcher(name).res_name) and t >= t_req]
+            if label in ('reload-graceful', 'reload-sequential'):
+                completed = any(kind == 'reload' for t, kind in evs)
+            else:
+                stops = [t for t, kind in evs if kind == 'stop']
+                completed = bool(stops) and any(kind == 'start' and t >= stops[0] for t, kind in evs)
+            if rep is not None and rep.get('status') == 'ok' and not waiting and not completed:
+                res.obs['accepted_but_not_completed:%s(not judged)' % label] += 1
+            if rep is not None and rep.get('status') == 'ok' and (waiting or completed):
                 old = sorted(set(k.live(tag)) & pre)
                 res.obs['freshness_judged:' + label] += 1
                 if old:
